@@ -293,6 +293,28 @@ def run(rep: common.Report, tier: str, seed: int, replay=None) -> int:
             rep.not_shown("correspondence(step): model evaluation failed", {**case, "log": out[-1200:]})
             continue
         ndis += stepcorr.compare(rep, r, out, case)
+    # extremal positions: a terminal that covers the FIRST vertex of the film outline (where the ring of boundary sites closes:
+    # the boundary edge between the last and the first outline vertex is there) and one that covers the vertex half-way round
+    import tdgl
+    from tdgl.geometry import box, circle
+    for fi, fpts in enumerate((box(6.0, 4.0), circle(2.5, points=40), box(5.0, 3.0, points=37))):
+        film = tdgl.Polygon("film", points=fpts)
+        p0, p1 = film.points[0], film.points[len(film.points) // 2]
+        dv = tdgl.Device(f"first_vertex_{fi}", layer=tdgl.Layer(coherence_length=0.5, london_lambda=2.0, thickness=0.1),
+                         film=film, terminals=[tdgl.Polygon("source", points=box(1.1, 1.1, center=tuple(p0))),
+                                               tdgl.Polygon("drain", points=box(1.1, 1.1, center=tuple(p1)))],
+                         length_units="um")
+        for mel_ in (0.9, 0.75, 1.05, 0.6, 0.5):
+            try:
+                dv.make_mesh(max_edge_length=mel_, smooth=0)
+                break
+            except ValueError:       # "Malformed Voronoi cell": the package refuses this discretisation, try another
+                dv.mesh = None
+        if dv.mesh is None:
+            rep.coverage["first_vertex_devices_not_meshed"] = rep.coverage.get("first_vertex_devices_not_meshed", 0) + 1
+            continue
+        run_case(rep, rng, 300 + fi, dv, dict(terminals=2, holes=0, field="static", td_current=False, screening=False, adaptive=True,
+                                              current_units="uA", terminal_psi=0.0, solve_time=0.1), model_records=False)
     # history on ONE device object: mesh, solve, re-mesh with a different boundary discretisation, solve again
     devh = meshes.make_device(rng, holes=0, terminals=2, max_edge_length=1.2)
     cfgh = dict(terminals=2, holes=0, field="static", td_current=False, screening=False, adaptive=True,
